@@ -29,6 +29,11 @@ CLAIMS = {
         'Tie: internal codes of both spellings compared model vs implementation; kalign() run on each input and a random respelling, gap patterns and letters compared.',
    note=TRUST + 'The biotype of the two spellings is a premise (equal by C13 premise 1 for nucleotide input; for protein the two likelihood tables are case-symmetric, C13_tables_case_symmetric, but the float sums are taken in index order, so equality of the decision near a tie is monitored, not proved).',
    tech='Coq proof (relational invariance of the pipeline) + regenerated alphabet tables'),
+ 'C17': dict(
+   text='Theorems over the model of compare_pair/kalign_msa_compare for all alignments: the reference totals count exactly the (residue, partner-or-gap) relations the two per-pair tables list; reproduced relations never exceed reference relations (C17_range_counters); all-gap columns are invisible; the score counters do not depend on the row order of either file (canonical name order, C17_row_order); two alignments that are the same up to row order and all-gap columns reproduce every relation, a = b (C17_same_alignment_reproduces_everything). '
+        'Tie: score bit pattern of the Flocq model vs kalign_msa_compare on file pairs (each with >= 1 gap); independent Python implementation of the definition as witness oracle.',
+   note=TRUST + 'The final 100.0*a/b in binary64 stored to float is executed in the model (Flocq) and compared bit for bit; that a=b yields exactly 100.0f and a<=b a value in [0,100] is checked on every case, not proved. The six counters are internal to the C function: only the score is observed.',
+   tech='Coq proof (induction over columns, pairs, canonical sorting) + bit-exact score correspondence'),
  'C09': dict(
    text='Theorems C09_defaults/override/explicit_default/mismatch/type_words/cli_defaults over the model of aln_param_init and set_aln_type, for all type constants, both kinds and ALL binary32 bit patterns of the three penalties; '
         'the parameter tables inside the theorems are regenerated from the built library and README.md on every run; the hand-written switch/override logic is tied by an exhaustive correspondence over 3 kinds x 8 types x value set^3 and by CLI runs observed through the PARAMS hook.',
